@@ -76,6 +76,8 @@ func TestC04(t *testing.T) {
 		{"standing-lookups", &tch.Config{Links: links, Lookups: lookups, StaticLookups: true, Streams: true, Tick: true}, 5, 8},
 		// lookups added and removed by events (late observers see the initial value set)
 		{"toggled-lookups", &tch.Config{Links: links, Lookups: lookups, Streams: true, Tick: true}, 4, 6},
+		// lookups whose directives exist before the controller's transport is constructed
+		{"early-lookups", &tch.Config{Links: links, Lookups: lookups, StaticLookups: true, EarlyLookups: true}, 4, 6},
 	}
 	unconfirmed := 0
 	for _, sc := range scens {
